@@ -366,6 +366,11 @@ def eval_call(c, env, depth):
         return UNK
     if p in ("std::convert::From::from", "std::convert::Into::into"):
         x = arg(0)
+        if _is(x, "ctopt"):
+            dty = c.fn.locals[c.dest["l"]]
+            if dty.get("path") == "std::option::Option":
+                return ("opt", "Some" if x[1] else "None", None)
+            return UNK
         if _is(x, "choice"):
             dty = c.fn.locals[c.dest["l"]]["t"]
             if dty == "bool":
@@ -387,6 +392,21 @@ def eval_call(c, env, depth):
             return ("choice", False)
         if _is(x, "choice") and _is(y, "choice"):
             return ("choice", x[1] and y[1])
+        return UNK
+    if p in ("subtle::CtOption::<T>::is_some",):
+        x = arg(0)
+        if _is(x, "ctopt"):
+            return ("choice", bool(x[1]))
+        return UNK
+    if p in ("subtle::CtOption::<T>::is_none",):
+        x = arg(0)
+        if _is(x, "ctopt"):
+            return ("choice", not x[1])
+        return UNK
+    if p in ("subtle::CtOption::<T>::into_option",):
+        x = arg(0)
+        if _is(x, "ctopt"):
+            return ("opt", "Some" if x[1] else "None", None)
         return UNK
     if p == "std::hint::must_use" or p == "std::convert::identity":
         return arg(0)
